@@ -544,6 +544,62 @@ func replayCase(c *Ctx) string {
 // objects, the merge program combines them, and --output names a file that already holds a pointer
 // (git passes the current version's file, %A): afterwards it must hold exactly the canonical pointer
 // of the merged content, and that content must be in local storage.
+// c01OneShotEnv: the one-shot filters as Git runs them (`git-lfs smudge -- <path>`, `git-lfs clean -- <path>`,
+// exit status and stdout are all Git sees) under environment settings users have: GIT_LFS_PROGRESS as an
+// absolute path, a relative one, a path in a missing directory; GIT_LFS_SKIP_SMUDGE. Exit status 0 means
+// "stdout is the file's content".
+func c01OneShotEnv(c *Ctx, r *Rng) {
+	n := c.N(40, 600)
+	dir := filepath.Join(c.Work, "c01-env")
+	if gitInit(dir) != nil {
+		return
+	}
+	for i := 0; i < n; i++ {
+		content := r.Bytes(Pick(r, []int{1, 200, 5000, 70000}))
+		ptrOut, code := runInStdin(dir, string(content), c.Lfs, "clean", "--", "x.bin")
+		if code != 0 {
+			continue
+		}
+		prog := Pick(r, []string{"", "", filepath.Join(c.Work, "c01-env-progress.log"), "progress.log", "sub/progress.log", filepath.Join(c.Work, "no-such-dir", "p.log")})
+		skip := r.Chance(20)
+		env := []string{}
+		if prog != "" {
+			env = append(env, "GIT_LFS_PROGRESS="+prog)
+		}
+		if skip {
+			env = append(env, "GIT_LFS_SKIP_SMUDGE=1")
+		}
+		cmd := exec.Command(c.Lfs, "smudge", "--", "x.bin")
+		cmd.Dir = dir
+		cmd.Env = append(os.Environ(), env...)
+		cmd.Stdin = strings.NewReader(ptrOut)
+		var so, se bytes.Buffer
+		cmd.Stdout, cmd.Stderr = &so, &se
+		err := cmd.Run()
+		enc := fmt.Sprintf("C01 oneshot-env size=%d env=%v", len(content), env)
+		c.R.Eval(enc, prog != "")
+		c.R.Count("oneshot-env")
+		want := content
+		if skip {
+			want = []byte(ptrOut)
+		}
+		if err == nil && !bytes.Equal(so.Bytes(), want) {
+			c.R.Add(Finding{Kind: "oracle", What: "one-shot smudge exited 0 but its output is not the object's bytes (Git takes the output for the file's content)", Case: enc,
+				Impl: fmt.Sprintf("%d bytes on stdout, want %d; stderr: %s", so.Len(), len(want), clip(se.String(), 200))})
+		}
+		// clean under the same environment: exit 0 means stdout is the pointer of the content
+		cmd2 := exec.Command(c.Lfs, "clean", "--", "x.bin")
+		cmd2.Dir = dir
+		cmd2.Env = append(os.Environ(), env...)
+		cmd2.Stdin = bytes.NewReader(content)
+		var so2 bytes.Buffer
+		cmd2.Stdout = &so2
+		if err2 := cmd2.Run(); err2 == nil && so2.String() != string(canonicalPointer(sha(content), int64(len(content)))) {
+			c.R.Add(Finding{Kind: "oracle", What: "one-shot clean exited 0 but its output is not the pointer of the content", Case: enc, Impl: clip(so2.String(), 200)})
+		}
+	}
+}
+
 func c01MergeDriver(c *Ctx, r *Rng) {
 	n := c.N(40, 600)
 	dir := filepath.Join(c.Work, "c01-merge")
@@ -570,9 +626,17 @@ func c01MergeDriver(c *Ctx, r *Rng) {
 		if !okc {
 			continue
 		}
-		prog := Pick(r, []string{"cp %B %D", "cp %O %D", "cat %A %B > %D", "cat %O %A %B > %D", "head -c 3 %B > %D", "cp %A %D"})
+		prog := Pick(r, []string{"cp %B %D", "cp %O %D", "cat %A %B > %D", "cat %O %A %B > %D", "head -c 3 %B > %D", "cp %A %D",
+			// programs that save atomically: the result is a NEW file renamed over %D
+			"cp %B %D.part && mv %D.part %D", "cat %A %B > %D.new && mv -f %D.new %D", "rm -f %D && cp %O %D"})
 		var merged []byte
 		switch prog {
+		case "cp %B %D.part && mv %D.part %D":
+			merged = cont[2]
+		case "cat %A %B > %D.new && mv -f %D.new %D":
+			merged = append(append([]byte(nil), cont[1]...), cont[2]...)
+		case "rm -f %D && cp %O %D":
+			merged = cont[0]
 		case "cp %B %D":
 			merged = cont[2]
 		case "cp %O %D":
@@ -703,6 +767,7 @@ func init() {
 		filterCampaign(c, "C01")
 		if c.Replay == "" {
 			c01MergeDriver(c, NewRng(c.Seed^0xC01D))
+			c01OneShotEnv(c, NewRng(c.Seed^0xC01A))
 			c08Extension(c, "C01", NewRng(c.Seed^0xC01E))
 			// smudging into a named file over {no file, same file, same length, shorter, longer}
 			smudgeToFileCampaign(c, NewRng(c.Seed^0xC01F), "C01")
